@@ -31,7 +31,7 @@ Good == { ETest(Q("@", <<Child(SName(a_))>>)), ECmp("==", At1(a_), One), ECmp(">
           ECmp("<", OFn("length", <<OFn("value", <<OQ(Q("@", <<Descend(SName(a_))>>))>>)>>), OLit(IntV(3))),
           ETest(Q("@", <<Child(SFilter(ETest(Q("@", <<Child(SName(b_))>>))))>>)), ECmp("==", One, One),
           ECmp("!=", OFn("length", <<OLit(Str(<<97, 98>>))>>), OFn("count", <<OQ(Q("$", <<Child(SWild)>>))>>)),
-          ETest(Q("$", <<Child(SName(a_)), Child(SIndex(0))>>)) }
+          ETest(Q("$", <<Child(SName(a_)), Child(SIndex(0))>>)), ECmp("<>", At1(a_), One), ECmp("<>", OFn("length", <<At1(a_)>>), OFn("count", <<AtWild>>)) }
 Bad == { ECmp("==", AtWild, One), ECmp("==", One, OQ(Q("@", <<Descend(SName(a_))>>))),
          ECmp("==", OQ(Q("@", <<Seg(FALSE, <<SIndex(0), SIndex(1)>>)>>)), One), ECmp("<", OQ(Q("@", <<Child(SSlice(<<0>>, <<1>>, <<>>))>>)), One),
          ECmp("==", OFn("match", <<At1(a_), ReA>>), OLit(Bool(TRUE))), ECmp("!=", OLit(Bool(FALSE)), OFn("search", <<At1(a_), ReA>>)),
@@ -43,6 +43,8 @@ Bad == { ECmp("==", AtWild, One), ECmp("==", One, OQ(Q("@", <<Descend(SName(a_))
          ECmp("==", OFn("count", <<OFn("value", <<AtWild>>)>>), One), ECmp("==", OFn("length", <<OFn("match", <<At1(a_), ReA>>)>>), One),
          ECmp("==", OFn("count", <<Expr(ECmp("==", At1(a_), One))>>), One), EFTest("match", <<At1(a_), Expr(ECmp("==", At1(b_), One))>>),
          ECmp("==", OFn("value", <<OFn("count", <<AtWild>>)>>), One),
+         \* the alias "<>" is a comparison like "!=": the same operands are refused
+         ECmp("<>", At1(a_), AtWild), ECmp("<>", OFn("match", <<At1(a_), ReA>>), OLit(Bool(TRUE))), ECmp("<>", OQ(Q("@", <<Descend(SName(a_))>>)), One),
          \* the offender on the right of a singular query (each operand is checked, not only the first)
          ECmp("==", At1(a_), AtWild), ECmp("!=", At1(a_), OFn("match", <<At1(b_), ReA>>)), ECmp("<", OQ(Q("$", <<Child(SName(b_)), Child(SIndex(0))>>)), OQ(Q("@", <<Descend(SName(a_))>>))),
          \* a parenthesised argument is a logical expression (RFC 9535 2.4: paren-expr), which none of the five functions takes
